@@ -33,6 +33,36 @@ Explains(cfg, e) ==
                                /\ r.oob = None
          [] OTHER -> FALSE
 
+\* Cross-checks of the specification itself at the real constants (Esc = 127, T = 64, the logged
+\* rates): the machine layer, run on the recorded arguments, must agree with the definition layer.
+\* A violation is an inconsistency of the spec (tool error), never a statement about rust-bio.
+\* (Guarded by IsSortedSA of the logged array: on a wrong array -- mutated code -- nothing is claimed.)
+RECURSIVE KasaiRun(_, _, _, _, _)
+KasaiRun(st, sm, t, sa, rank) ==
+    IF st.p >= Len(t) - 1 THEN <<st, sm>>
+    ELSE LET nx == KasaiStep(st, t, sa, rank)
+             r  == rank[st.p + 1]
+         IN  KasaiRun(nx, SmallIntsSet(sm[1], sm[2], r + 1, nx.lcp[r + 1], 127), t, sa, rank)
+RECURSIVE SGetRun(_, _, _, _, _)
+SGetRun(st, sa, ix, s, sent) == IF st.done THEN st.val ELSE SGetRun(SGetStep(st, sa, ix, s, sent), sa, ix, s, sent)
+MachineAgrees ==
+    idx > 0 =>
+        LET e == Rec[run].ev[idx]  t == Rec[run].cfg.text  n == Len(Rec[run].cfg.text) IN
+        CASE e.c.op = "lcp" /\ n <= 400 /\ n >= 2 /\ SingleSentinel(t) /\ IsSortedSA(e.c.a.sa, t) ->
+               LET sa  == e.c.a.sa
+                   fin == KasaiRun(KasaiInit(n), <<[r \in 1..(n + 1) |-> -1], << >> >>, t, sa, Eager(RankOf(sa)))
+               IN  \A r \in 1..(n + 1) :
+                      /\ fin[1].lcp[r] = LcpDef(t, sa)[r]
+                      /\ SmallIntsGet(fin[2][1], fin[2][2], r, 127) = fin[1].lcp[r]
+          [] e.c.op = "sus" /\ n <= 150 /\ n >= 2 /\ SingleSentinel(t) /\ IsSortedSA(e.c.a.sa, t) ->
+               LET sa == e.c.a.sa  l == Eager(LcpDef(t, sa)) IN
+               \A p \in 1..n : SusViaLcp(sa, l)[p] = SusPairs(t)[p]
+          [] e.c.op = "sample" /\ n <= 150 /\ SentinelOK(t) /\ IsSortedSA(e.c.a.sa, t) /\ e.c.a.s >= 1 /\ e.c.a.k >= 1 ->
+               LET sa == e.c.a.sa
+                   ix == MkIndex(t, sa, e.c.a.k, 64, Range(t))
+               IN  \A i \in 0..(n - 1) : SGetRun(SGetInit(i), sa, ix, e.c.a.s, Sentinel(t)) = sa[i + 1]
+          [] OTHER -> TRUE
+
 Init == run \in 1..Len(Rec) /\ idx = 0 /\ ok = TRUE
 Next ==
     /\ ok /\ idx < Len(Rec[run].ev)
